@@ -1,6 +1,8 @@
 use crate::runner::PropDef;
 
 pub mod c01;
+pub mod c02;
+pub mod c03;
 pub mod c04;
 pub mod c06;
 pub mod c07;
@@ -14,7 +16,7 @@ pub mod c19;
 pub mod c20;
 
 pub fn all() -> Vec<&'static PropDef> {
-    vec![&c01::PROP, &c04::PROP, &c06::PROP, &c07::PROP, &c08::PROP, &c09::PROP, &c10::PROP, &c15::PROP, &c16::PROP, &c18::PROP, &c19::PROP, &c20::PROP]
+    vec![&c01::PROP, &c02::PROP, &c03::PROP, &c04::PROP, &c06::PROP, &c07::PROP, &c08::PROP, &c09::PROP, &c10::PROP, &c15::PROP, &c16::PROP, &c18::PROP, &c19::PROP, &c20::PROP]
 }
 
 pub fn get(id: &str) -> Option<&'static PropDef> {
